@@ -26,6 +26,10 @@ HOSTILE = [
     "\\\nkind < 3", "kind\\\n < 3", "id,\\\nname", "\\\n5", "1e30", "9" * 23,
     ",", ",,", '"\\x"', "'\\'", '"\\u12"', '"\\N{x}"', '"\\"', "...,", ",1", "1,", "a,", "- ,", "0x1,0x", "%%", "\\", "[", "]]", "(?i", "a**", "x{2,1}",
 ]
+# small numbers (a sheet right behind the last one, a header longer than the data) and digits that are no decimal digits
+HOSTILE += ["2", "3", "4", "\xb2", "\u2460", "\xb2\xb3", "\u0663", "1\xb2"]
+# regular expressions the compiler gives up on with something other than re.error
+HOSTILE += ["a{99999999999}", "a{1,4294967296}", "(" * 2000 + "a" + ")" * 2000]
 # a sound first token followed by something the tokenizer or the parser rejects right there
 HOSTILE += ["%s %s" % (head, tail) for head in ("Text", "5", '"a"') for tail in ("'abc", '"abc', "0b2", "\\", "1_", "0x", "$", "?", "(", "...")]
 FIELDS = {
